@@ -43,7 +43,7 @@ def gen_cases(ctx):
         ops = [{"op": "w", "s": {"gen": [rng.randrange(28, 600), rng.randrange(9)]}} if rng.random() < 0.7 else {"op": "rm"} for _ in range(rng.randrange(1, 4))]
         cases.append({"fmt": "png", "name": "rand", "asset": {"hex": a.hex()}, "ops": ops, "grp": "rand"})
     # special JPEG layouts (fill bytes, stand-alone marker, foreign JUMBF boxes) and RIFF format strings
-    for name in ("fill", "tem", "tem_first", "foreign_same_en", "trail"):
+    for name in ("fill", "tem", "tem_first", "foreign_same_en", "foreign_same_en_multi", "trail"):
         a = K.build_jpeg(variant=name)
         for ops in sets[:2] + sets[4:6]:
             cases.append({"fmt": "jpg", "name": name, "asset": {"hex": a.hex()}, "ops": json.loads(json.dumps(ops)), "grp": "special"})
@@ -90,7 +90,7 @@ def oracle(ctx, c, r, stats, removed):
     base = dict(flags, fam=fam, fmt=c["fmt"], name=c.get("name"), c2pa_after_media=bool(c.get("c2pa_after_media")),
                 gif87=(fam == "gif" and a0[3:6] == b"87a"),
                 riff_extra_chunks=(fam == "riff" and bool(K.media_riff(a0)["media"][2])) if fam == "riff" else False,
-                avi_literal=c["fmt"] in ("avi", "video/avi"))
+                avi_literal=c["fmt"] in K.AVI_TYPES)
     if r.get("r") in ("panic", "crash"):
         ctx.report_violation(c, f"implementation panicked: {r.get('msg')}", dict(base, cls="panic"))
         return
@@ -186,7 +186,7 @@ def run(ctx):
         "distribution": stats,
         "model_compared": nmodel,
         "level_by_format": {"png": "full", "jpeg": "full (bytes)", "gif": "full (segment level; GIF87a header upgrade is F-GIF-87A)",
-                            "riff": "full for the first RIFF chunk (segment level); extra chunks F-RIFF-AVIX",
+                            "riff": "full for the first RIFF chunk (segment level); extra RIFF/AVIX chunks by extractor",
                             "bmff": "partial: oracle only (F-BMFF)", "tiff": "partial: remove(write)=remove only", "svg": "partial: remove(write)=remove only",
                             "mp3": "partial: remove(write)=remove only", "flac": "partial: remove(write)=remove only", "jxl": "partial: remove(write)=remove only"},
         "samples": [K.sample(c) for c in cases[:2] + cases[len(cases) // 2: len(cases) // 2 + 2]],
